@@ -78,7 +78,7 @@ class C10(Check):
     models = ["Jitter"]
     quick_cases = 2500
     thorough_cases = 80000
-    case_timeout = 5.0
+    case_timeout = 60.0
     level_note = ("Theorems are about Model/Jitter.v (and, for C17, the window abstraction proved equivalent to it in "
                   "Proof/JitterP.v); the tie to aiortc.jitterbuffer.JitterBuffer is the differential run of generated "
                   "arrival histories in which the return value of every add() AND the complete ring (_origin, length, "
@@ -106,7 +106,8 @@ class C10(Check):
         pf = rng.randrange(0, 5)
         video = rng.randrange(2)
         base = (65536 - rng.randrange(0, 300)) % 65536 if rng.random() < 0.5 else rng.randrange(65536)
-        mode = rng.choice(["inorder", "inorder", "perm", "disp", "disp", "lossdup", "lossdup", "wild", "wild", "wild"])
+        mode = rng.choice(["inorder", "inorder", "perm", "disp", "disp", "lossdup", "lossdup", "late", "late",
+                           "wild", "wild", "wild"])
         maxf = rng.choice([1, 2, 3, 8, 8])
         c = max(cap, 4)
         if mode == "perm":
@@ -129,6 +130,24 @@ class C10(Check):
                 while rng.random() < pdup:
                     arr.append(list(x))
             arr = displace(rng, arr, rng.choice([0.5, 2, c / 2, c - 1, c + 3, 2 * c]))
+        elif mode == "late":
+            # mostly ordered delivery plus retransmissions / stragglers arriving 1..140 positions late
+            stream = make_stream(rng, rng.randrange(8, 60), maxf, False)
+            arr = displace(rng, stream, rng.choice([0.5, 0.5, 2, c / 4]))
+            for _ in range(rng.randrange(1, 5)):
+                k = rng.randrange(1, len(arr) + 1)
+                mx = max(x[0] for x in arr[:k])
+                back = rng.choice([rng.randrange(1, 100), rng.randrange(30, 100), rng.randrange(50, 100), 99, 98,
+                                   rng.randrange(100, 141)])
+                u = mx - back
+                if u < 0:
+                    continue
+                # a burst of consecutive retransmissions (so that they can form whole frames again)
+                burst = [list(x) for x in stream if u <= x[0] < u + rng.choice([1, 1, 2, 4, 9]) and x[0] <= mx]
+                if burst and rng.random() < 0.3 and burst[0] in arr[:k]:
+                    arr.remove(burst[0])            # a straggler instead of a duplicate
+                    k -= 1
+                arr[k:k] = burst
         else:
             stream = make_stream(rng, rng.randrange(2, 60), maxf, True)
             arr = []
@@ -204,6 +223,8 @@ class C10(Check):
             return None                     # outside the property: the constructor / first add rejects it
         if not all(0 <= p[0] <= M16 for p in pkts):
             return None
+        if len(impl_out) < 2:
+            return ("raised", "add() did not return within the time limit")
         status, steps = impl_out[0], impl_out[1]
         if status != 0 or len(steps) != len(pkts):
             return ("raised", f"add() raised on packet #{len(steps)} {pkts[len(steps)][:2] if len(steps) < len(pkts) else ''} "
@@ -280,8 +301,12 @@ class C10(Check):
                     return ("packet-reused", "a received packet was used in two released frames although nothing "
                                              "arrived 100 or more positions late")
                 us = [pkts[j][3] for j in released]
-                if any(a >= b for a, b in zip(us, us[1:])):
-                    return ("frames-out-of-order", f"released stream positions not increasing: {us[:40]}")
+                bad = [i for i in range(len(us) - 1) if us[i] >= us[i + 1]]
+                if bad:
+                    i = bad[0]
+                    return ("frames-out-of-order", f"released stream positions not increasing: position {us[i + 1]} "
+                                                   f"(seq {pkts[released[i + 1]][0]}) came out after position {us[i]} "
+                                                   f"although nothing arrived 100 or more positions late")
         # ---- 4. completeness
         if consistent and pkts:
             us = [p[3] for p in pkts]
